@@ -15,6 +15,7 @@ _check_posterior  vs  Model/C15_MAP.v.
               the model's exact posterior mean / weighted-least-squares solution (tol 1e-4)
  * op=optng   the real optimiser on smooth log-concave non-Gaussian posteriors: route decision in Coq, maximality by
               the oracle only
+ * op=optns   the same on NON-smooth log-concave priors (Laplace, LMRF): finding ..|nonsmooth-prior:bfgs-finite-differences
 
 The independent oracle states the property itself: exact posterior mean / covariance in Fractions (precision form,
 own Gauss-Jordan), the posterior's own logd in a neighbourhood of the returned point and its gradient there.
@@ -40,6 +41,7 @@ SIG_SAMPLE = "BayesianProblem._sampleMapCholesky"
 SIG_ROUTE = "BayesianProblem._check_posterior"
 SIG_SETUP = "BayesianProblem._solve_max_point"
 SIG_OPT = "BayesianProblem._solve_max_point|optimiser"
+SIG_NONSMOOTH = "BayesianProblem._solve_max_point|nonsmooth-prior:bfgs-finite-differences"
 
 PARAMS = ["cov", "prec", "sqrtcov", "sqrtprec"]
 KINDS = ["scalar", "vector", "matrix", "sparse"]
@@ -309,8 +311,20 @@ def probe_fixed(cuqi):
 def known_witnesses(ctx):
     import cuqi
     bad_noise, bad_prior, o1, o2 = probe_fixed(cuqi)
-    return {SIG_NOISE: (bool(bad_noise), bad_noise or "witness returns the posterior mean"),
-            SIG_PRIOR: (bool(bad_prior), bad_prior or "witness returns the posterior mean (or is refused)")}
+    out = {SIG_NOISE: (bool(bad_noise), bad_noise or "witness returns the posterior mean"),
+           SIG_PRIOR: (bool(bad_prior), bad_prior or "witness returns the posterior mean (or is refused)")}
+    # non-smooth prior: the maximiser of the witness posterior is (0, 0); MAP() returns normally with another point
+    try:
+        BP = build_classes(cuqi, WITNESS_NONSMOOTH)
+        r = quiet(BP.MAP)
+        x = np.asarray(r, dtype=float)
+        gap = float(BP.posterior.logd(np.zeros(2))) - float(BP.posterior.logd(x))
+        bad = gap > 1e-6
+        out[SIG_NONSMOOTH] = (bad, "MAP() returned %s (info success=%s) but posterior.logd is larger by %.3g at [0, 0]" % (np.round(x, 6).tolist(), r.info.get("success"), gap)
+                              if bad else "witness: MAP() is within 1e-6 of the maximum")
+    except Exception as e:
+        out[SIG_NONSMOOTH] = (False, "witness call now fails: %r" % (e,))
+    return out
 
 
 # ---------------------------------------------------------------------------------------------------------
@@ -357,7 +371,12 @@ def well_conditioned(meta, A_eff, m, n):
     H = A_eff.T @ np.linalg.inv(Ce) @ A_eff + np.linalg.inv(Cx)
     # the row-broadcast / dot-product systems of the unrepaired code must be well conditioned as well
     S2 = A_eff @ Cx @ A_eff.T + np.diag(Ce)[None, :] * np.ones((m, 1))
-    cs = [np.linalg.cond(S), np.linalg.cond(H), np.linalg.cond(S2)]
+    cs = [np.linalg.cond(S), np.linalg.cond(H)]
+    if m <= n + 1:
+        cs.append(np.linalg.cond(S2))
+    # (for m > n + 1 the row-broadcast system A Cx A^T + 1 v^T of the unrepaired code has rank <= n + 1 < m: exactly
+    #  singular; numpy then raises LinAlgError -- what the model says -- or returns garbage, which the oracle reports
+    #  under the vector-noise-covariance signature)
     if m == n:
         w = A_eff @ (A_eff @ np.diag(Cx))
         cs.append(np.linalg.cond(Ce + w[None, :]))
@@ -787,6 +806,26 @@ def case_opt(cuqi, meta):
                 kind="EXACT", impl_fail=fail, signature=SIG_OPT if fail else "")
 
 
+def refine_fail(density, x, what, tol=1e-6):
+    """local derivative-free search started at the returned estimate: a concrete point with larger density"""
+    import scipy.optimize as so
+    f = lambda v: -float(density.logd(v))
+    f0 = f(x)
+    best, fb = np.array(x, dtype=float), f0
+    for rep in range(2):
+        for meth, opts in (("Nelder-Mead", dict(xatol=1e-12, fatol=1e-14, maxiter=20000, maxfev=20000)), ("Powell", dict(xtol=1e-12, ftol=1e-14))):
+            res = so.minimize(f, best, method=meth, options=opts)
+            if res.fun < fb:
+                best, fb = np.array(res.x, dtype=float), float(res.fun)
+    if f0 - fb > tol * (1 + abs(f0)):
+        return "%s returned %s but logd is larger by %.3g at %s (distance %.3g)" % (what, np.round(x, 8).tolist(), f0 - fb, np.round(best, 8).tolist(), np.linalg.norm(best - x))
+    return None
+
+
+WITNESS_NONSMOOTH = {"op": "optns", "prior": "Laplace", "lik": "Gaussian", "linear": True, "m": 3, "n": 2,
+                     "A": [[1, 0], [0, 1], [1, 1]], "b": [1, 0.5, -1]}
+
+
 def case_optng(cuqi, meta):
     """smooth log-concave (unimodal) non-Gaussian posterior: route decision in Coq, maximality by the oracle"""
     BP = build_classes(cuqi, meta)
@@ -797,7 +836,7 @@ def case_optng(cuqi, meta):
     if r.info.get("solver") == "direct":
         fail = "MAP took the closed-form branch for a non-Gaussian prior"
     else:
-        fail = neighbourhood_fail(BP.posterior, x, "MAP", tol=1e-6)
+        fail = neighbourhood_fail(BP.posterior, x, "MAP", tol=1e-6) or refine_fail(BP.posterior, x, "MAP (success=%s)" % r.info.get("success"))
         if fail is None and has_grad:
             g = np.asarray(BP.posterior.gradient(x), dtype=float)
             if np.linalg.norm(g) > 1e-3 * (1 + np.linalg.norm(x)):
@@ -805,7 +844,8 @@ def case_optng(cuqi, meta):
     P = "(mk_pinfo %s %s %s %s %s %s)" % (cnat(DCLS.index(meta["prior"]) if meta["prior"] in DCLS else 7),
                                           cnat(DCLS.index(meta["lik"])), cbool(meta["linear"]), cnat(meta["m"]), cnat(meta["n"]), cbool(has_grad))
     expr = "check_routes %s %s %s %s" % (P, cnat(2000), cbool(r.info.get("solver") == "direct"), "false")
-    return Case(expr=expr, meta=meta, cell="optng/%s" % meta["prior"], kind="DECISION", impl_fail=fail, signature=SIG_OPT if fail else "")
+    sig = SIG_NONSMOOTH if meta["op"] == "optns" else SIG_OPT
+    return Case(expr=expr, meta=meta, cell="%s/%s" % (meta["op"], meta["prior"]), kind="DECISION", impl_fail=fail, signature=sig if fail else "")
 
 
 # ---------------------------------------------------------------------------------------------------------
@@ -823,7 +863,7 @@ def dispatch(cuqi, meta, fixed, cell=""):
         return case_setup(cuqi, meta)
     if op == "opt":
         return case_opt(cuqi, meta)
-    if op == "optng":
+    if op in ("optng", "optns"):
         return case_optng(cuqi, meta)
     raise ValueError(op)
 
@@ -887,6 +927,18 @@ def gen_optng_metas(ctx):
     return out
 
 
+def gen_optns_metas(ctx):
+    """non-smooth log-concave priors (Laplace, LMRF): unimodal posteriors, BFGS with finite-difference gradients"""
+    rng = ctx.rng
+    out = [dict(WITNESS_NONSMOOTH)]
+    for _ in range(ctx.n(2, 15)):
+        for prior in ["Laplace", "LMRF"]:
+            m, n = rng.choice([(3, 2), (4, 3), (3, 3)])
+            out.append({"op": "optns", "prior": prior, "lik": "Gaussian", "linear": True, "m": m, "n": n,
+                        "A": gen_A(rng, m, n), "b": [dy(rng) for _ in range(m)]})
+    return out
+
+
 def run(ctx):
     import cuqi
     rng = ctx.rng
@@ -898,10 +950,19 @@ def run(ctx):
     cases = []
     cells = lattice_map(ctx)
     reps = ctx.n(1, 6)
+    skipped = 0
     for c in cells:
+        if not fixed and c["ke"] == "vector" and c["m"] > c["n"] + 1 and c["kx"] != "vector" and c["pe"] == "cov":
+            # unrepaired code: the row-broadcast system A Cx A^T + 1 v^T has rank <= n + 1 < m, exactly singular; numpy
+            # raises LinAlgError or returns rounding garbage -- not describable over Q.  The class stays covered by the
+            # finding's witness; with the repair applied these cells are generated like all others.
+            skipped += 1
+            continue
         for _ in range(reps):
             meta = instantiate(rng, c, "map")
             cases.append(case_map(cuqi, meta, fixed, cell_name(c, "map")))
+    if skipped:
+        ctx.note("%d closed-form cells (vector noise covariance, m > n+1) left to the witness in the unrepaired state" % skipped)
     # direct sampling: a sub-lattice (each case runs n+2 draws)
     scells = [c for c in cells if (c["m"], c["n"]) in [(2, 3), (3, 3), (3, 2), (2, 1), (1, 1)]]
     if not ctx.thorough:
@@ -917,6 +978,8 @@ def run(ctx):
     for meta in gen_opt_metas(ctx):
         cases.append(case_opt(cuqi, meta))
     for meta in gen_optng_metas(ctx):
+        cases.append(case_optng(cuqi, meta))
+    for meta in gen_optns_metas(ctx):
         cases.append(case_optng(cuqi, meta))
     return Result(cases=cases, rule=RULE, extra={"repair_state_fixed": fixed},
                   assumptions=["numpy.linalg.solve / inv are modelled by an exact Gauss-Jordan over Qc whose result is checked (M z = b, M X = X M = I) before use; "
@@ -938,7 +1001,7 @@ def classify(meta, detail):
     if op == "map":
         A = meta["A"]
         return classify_map(meta, len(A), len(A[0]))
-    return {"sample": SIG_SAMPLE, "route": SIG_ROUTE, "setup": SIG_SETUP, "opt": SIG_OPT, "optng": SIG_OPT}.get(op, "C15")
+    return {"sample": SIG_SAMPLE, "route": SIG_ROUTE, "setup": SIG_SETUP, "opt": SIG_OPT, "optng": SIG_OPT, "optns": SIG_NONSMOOTH}.get(op, "C15")
 
 
 def search(ctx):
